@@ -38,6 +38,15 @@ Proof. intros. unfold gumbel_soft. apply sigmoid_in01. Qed.
 Theorem gumbel_hard_values : forall x u tau t, gumbel_hard x u tau t = 0 \/ gumbel_hard x u tau t = 1.
 Proof. intros. unfold gumbel_hard. destruct (Rlt_dec t (gumbel_soft x u tau)); auto. Qed.
 
+(* a threshold at or beyond the ends of (0,1): the answer does not depend on the draw, the logit or the temperature *)
+Theorem hard_threshold_outside : forall x u tau t,
+  (t <= 0 -> gumbel_hard x u tau t = 1) /\ (1 <= t -> gumbel_hard x u tau t = 0).
+Proof.
+  intros x u tau t. pose proof (gumbel_soft_range x u tau) as [H0 H1]. unfold gumbel_hard. split; intro Ht.
+  - destruct (Rlt_dec t (gumbel_soft x u tau)) as [_|Hn]; [reflexivity|exfalso; apply Hn; lra].
+  - destruct (Rlt_dec t (gumbel_soft x u tau)) as [Hl|_]; [exfalso; lra|reflexivity].
+Qed.
+
 (* hard event for a threshold t in (0,1): soft > t  <->  logit + noise > tau * logit(t) *)
 Theorem hard_event : forall x u tau t, 0 < tau -> 0 < t < 1 ->
   (t < gumbel_soft x u tau <-> tau * logit t < x + noise u).
